@@ -37,6 +37,12 @@ def make_handler_class(desper, env, name, events):
     for ev in events:
         ns[METHOD_OF[ev]] = make_cb(ev)
 
+    # a private event only this handler listens to: the program dispatches it when the handler dies (see _watch) -
+    # nobody is left to receive it, so any call shows in the log (with receiver None if the dispatcher is careless)
+    def cb_only(self, *a, **kw):
+        env.log.append((0, 'None' if self is None else self.name, 'only'))
+    ns['cb_only'] = cb_only
+
     def __hash__(self):
         return 1 if env.equal else env.rank.get(self.name, 0)
 
@@ -50,6 +56,7 @@ def make_handler_class(desper, env, name, events):
     cls = type('H_' + name, (), ns)
     plain = [e for e in events if METHOD_OF[e] == e]
     renamed = {e: METHOD_OF[e] for e in events if METHOD_OF[e] != e}
+    renamed['only_' + name] = 'cb_only'
     cls = desper.event_handler(*plain, **renamed)(cls)
     return cls
 
@@ -72,6 +79,7 @@ class DispatcherAdapter:
         env.eid = 0
         env.objs = {}
         env.weak = {}
+        env.watch = []
         env.d = self.desper.EventDispatcher()
         env.beh = {h: tuple(b) for h, b in init['beh'].items()}
         env.equal = False
@@ -92,6 +100,17 @@ class DispatcherAdapter:
         env.behave = self._behave
         env.equal = self.counter % 3 == 0
         self.orders = set()
+
+    def _watch(self, h):
+        """Program-side death watch, created AFTER the registration: CPython runs the weak reference callbacks of a dying
+        object newest first, so this one runs while the dispatcher has not yet forgotten the handler - and dispatches."""
+        env = self.env
+        d = env.d
+
+        def on_death(_ref, h=h):
+            if d.dispatch_enabled:
+                d.dispatch('only_' + h)
+        env.watch.append(weakref.ref(env.objs[h], on_death))
 
     def _dispatch(self, e):
         env = self.env
@@ -114,6 +133,7 @@ class DispatcherAdapter:
         elif kind == 'add':
             if tgt in env.objs:
                 env.d.add_handler(env.objs[tgt])
+                self._watch(tgt)
         elif kind == 'remove':
             if tgt in env.objs:
                 env.d.remove_handler(env.objs[tgt])
@@ -131,6 +151,7 @@ class DispatcherAdapter:
         def call():
             if name == 'AddHandler':
                 d.add_handler(env.objs[args[0]])
+                self._watch(args[0])
             elif name == 'RemoveHandler':
                 d.remove_handler(env.objs[args[0]])
             elif name == 'DropRef':
